@@ -262,7 +262,7 @@ impl CFormatSpec {
             bytes
         };
         if let Some(CFormatQuantity::Amount(width)) = self.min_field_width {
-            let fill = cmp::max(0, width - bytes.len());
+            let fill = width.saturating_sub(bytes.len());
             let mut v = Vec::with_capacity(bytes.len() + fill);
             if self.flags.contains(CConversionFlags::LEFT_ADJUST) {
                 v.extend_from_slice(bytes);
